@@ -19,6 +19,27 @@ impl Checker for C05 {
         // only the space-related part of the result oracle belongs to this property
         v.retain(|(sig, _)| sig.contains("NotEnoughSpace") || sig.contains("partial-"));
         v.extend(o::o_free_space("C05", ops, ex));
+        // a transient storage fault while the volume is being unmounted: the next session must still report
+        // the number of free entries of the FAT (the library may have failed to store the count, but then it must
+        // not trust it)
+        if matches!(ops.last(), Some(Op::Remount)) && ex.panic.is_none() && v.is_empty() && ex.calls_last <= 3000 {
+            for k in 1..=ex.calls_last {
+                let plan = harness::sess::Plan { fault: Some((k, 0x00F5_0000 + k as u32)), ..Default::default() };
+                let fx = sess::run(cfg, ops, &plan);
+                if fx.panic.is_some() || !fx.completed || !fx.mount_failures.is_empty() {
+                    continue;
+                }
+                if let (Some(Ok(post)), Some(Ok(f))) = (&fx.post, &fx.suffix.stats_free) {
+                    if *f as u64 != post.free {
+                        v.push((
+                            "C05/after-faulted-unmount/stats-free-count".into(),
+                            format!("device call {k} of the unmount/remount failed once; the next session's stats() says {f} free, the FAT has {}", post.free),
+                        ));
+                        break;
+                    }
+                }
+            }
+        }
         // delete-all: capacity is back to the initial one
         if ex.completed && ex.panic.is_none() && ex.model.nodes.len() == 1 && ex.model.fh.iter().all(Option::is_none) {
             if let Some(Ok(post)) = &ex.post {
